@@ -90,7 +90,9 @@ func (p *PayableOracle) StateOf(address []byte) int {
 // IsPayable implements vmcommon.PayableHandler.
 func (p *PayableOracle) IsPayable(address []byte) (bool, error) {
 	if p.Faults.hit(DepIsPayable) {
-		return false, ErrInjected
+		// Alt 1: the lookup fails after it had already formed an answer (the boolean next to an error
+		// carries no meaning)
+		return p.Faults.Alt == 1, ErrInjected
 	}
 	p.Queries++
 	switch p.StateOf(address) {
